@@ -1010,7 +1010,9 @@ def _to_traces(ctx, prop, jobs, results) -> List[dict]:
             f[1] += sum(res["covered"])
         for i, ev in enumerate(res["ev"]):
             meta = dict(c=res["cfg"]["c"], prop=prop, inst=inst, kind=kind, mode=res["cfg"]["mode"], seed=res["cfg"]["seed"], step=i)
-            hist = [{"m": e["m"], "cloned": e["cloned"], "ret": e.get("ret", {}), "applied": e["applied"]} for e in res["ev"][: i + 1]]
+            hist = [{"m": e["m"], "cloned": e["cloned"], "ret": e.get("ret", {}), "applied": e["applied"], "pre": e["pre"],
+                     **({"edge": {"from": e["pre"], "act": {"m": e["m"], "applied": e["want"]["applied"], "args": e["want"]["args"]},
+                                  "to": e["want"]["to"]}} if "want" in e else {})} for e in res["ev"][: i + 1]]
             traces.append({"cfg": meta, "ev": [{k: ev[k] for k in KEEP}],
                            "full": {k: v for k, v in ev.items() if k not in ("spre", "spost", "kept", "norm", "adv")},
                            "history": hist, "desc": res["cfg"].get("desc"), "start": res["ev"][0]["pre"]})
